@@ -77,6 +77,8 @@ pub struct Formal {
 
 #[derive(Clone, Debug)]
 pub struct MacroDef {
+    /// unique id of this definition (0 for caller-supplied ones)
+    pub id: usize,
     pub name: String,
     pub formals: Vec<Formal>,
     /// None = no body at all
@@ -193,7 +195,8 @@ pub fn render_body(body: &[BodyTok], formals: &[Formal], out: &mut String) {
     }
 }
 
-pub fn render_define(d: &MacroDef, out: &mut String) {
+/// Appends the directive; returns the offset (in `out`) at which the macro body starts.
+pub fn render_define(d: &MacroDef, out: &mut String) -> usize {
     out.push_str("`define ");
     out.push_str(&d.name);
     if !d.formals.is_empty() {
@@ -210,6 +213,7 @@ pub fn render_define(d: &MacroDef, out: &mut String) {
         }
         out.push(')');
     }
+    let body_start = out.len();
     if let Some(b) = &d.body {
         out.push(' ');
         render_body(b, &d.formals, out);
@@ -218,19 +222,28 @@ pub fn render_define(d: &MacroDef, out: &mut String) {
         out.push_str(" //");
         out.push_str(c);
     }
+    body_start
 }
 
 pub struct Rendered {
     pub text: String,
     /// line number (1-based) of each LineMacro by id
     pub line_of: std::collections::HashMap<usize, u32>,
+    /// offset of the body of each `define by definition id
+    pub body_start: std::collections::HashMap<usize, usize>,
+}
+
+#[derive(Default)]
+pub struct Side {
+    pub lines: std::collections::HashMap<usize, u32>,
+    pub body_start: std::collections::HashMap<usize, usize>,
 }
 
 fn cur_line(s: &str) -> u32 {
     1 + s.bytes().filter(|b| *b == b'\n').count() as u32
 }
 
-pub fn render_items(items: &[Item], out: &mut String, lines: &mut std::collections::HashMap<usize, u32>) {
+pub fn render_items(items: &[Item], out: &mut String, side: &mut Side) {
     for it in items {
         match it {
             Item::Text(ps) => {
@@ -244,7 +257,8 @@ pub fn render_items(items: &[Item], out: &mut String, lines: &mut std::collectio
                 out.push_str(ws);
             }
             Item::Define(d, ws) => {
-                render_define(d, out);
+                let b = render_define(d, out);
+                side.body_start.insert(d.id, b);
                 out.push_str(ws);
             }
             Item::Undef(n, ws) => {
@@ -264,17 +278,17 @@ pub fn render_items(items: &[Item], out: &mut String, lines: &mut std::collectio
                 out.push_str(if c.ifndef { "`ifndef " } else { "`ifdef " });
                 out.push_str(&c.name);
                 out.push_str(&c.ws_after_name);
-                render_items(&c.then, out, lines);
+                render_items(&c.then, out, side);
                 for (n, ws, body) in &c.elsifs {
                     out.push_str("`elsif ");
                     out.push_str(n);
                     out.push_str(ws);
-                    render_items(body, out, lines);
+                    render_items(body, out, side);
                 }
                 if let Some((ws, body)) = &c.els {
                     out.push_str("`else");
                     out.push_str(ws);
-                    render_items(body, out, lines);
+                    render_items(body, out, side);
                 }
                 out.push_str("`endif");
                 out.push_str(&c.ws_after_endif);
@@ -308,7 +322,7 @@ pub fn render_items(items: &[Item], out: &mut String, lines: &mut std::collectio
                 out.push_str(ws);
             }
             Item::LineMacro { id, ws_after } => {
-                lines.insert(*id, cur_line(out));
+                side.lines.insert(*id, cur_line(out));
                 out.push_str("`__LINE__");
                 out.push_str(ws_after);
             }
@@ -318,7 +332,7 @@ pub fn render_items(items: &[Item], out: &mut String, lines: &mut std::collectio
 
 pub fn render_file(f: &SrcFile) -> Rendered {
     let mut text = String::new();
-    let mut line_of = std::collections::HashMap::new();
-    render_items(&f.items, &mut text, &mut line_of);
-    Rendered { text, line_of }
+    let mut side = Side::default();
+    render_items(&f.items, &mut text, &mut side);
+    Rendered { text, line_of: side.lines, body_start: side.body_start }
 }
